@@ -33,4 +33,11 @@ pub struct Scenario {
     pub jump: Option<(i64, i32, i32)>,
     pub start_utc: i64,
     pub steps: Vec<Step>,
+    /// coordinates attached to the zone-aware context (only generated for expressions without sun events, for
+    /// which they must not matter)
+    #[serde(default)]
+    pub coords: Option<(i32, i32)>,
+    /// `approx_bound_interval_size` in days, applied to BOTH the zone-aware and the location-free context
+    #[serde(default)]
+    pub bound_days: Option<u32>,
 }
